@@ -7,7 +7,7 @@
 (* first violation in a program the rest of that program is skipped (the   *)
 (* model state can no longer be trusted); the next program starts afresh.  *)
 (***************************************************************************)
-EXTENDS Integers, Sequences, FiniteSets, SequencesExt, TLC, Json, IOUtils, FatFsA, Stamps
+EXTENDS Integers, Sequences, FiniteSets, SequencesExt, TLC, Json, IOUtils, FatFsA
 
 VARIABLES l, st
 
@@ -59,23 +59,20 @@ Dead == [pid |-> "", dead |-> TRUE]
 (* ---------------- views as facts ---------------- *)
 IsDotEnt(x) == x.sn = <<46>> \/ x.sn = <<46, 46>>
 ViewBad(view) == \E i \in 1..Len(view) : view[i].k = "x"
+ViewIdx(view) == {x \in 1..Len(view) : view[x].k \in {"f", "d"} /\ ~IsDotEnt(view[x])}
 ViewFacts(view, withData) ==
-   {[p |-> [j \in 1..Len(view[i].p) |-> Key(view[i].p[j])], k |-> view[i].k, name |-> Last(view[i].p),
-     d |-> IF withData /\ view[i].k = "f" THEN view[i].c ELSE <<>>]
-    : i \in {x \in 1..Len(view) : view[x].k \in {"f", "d"} /\ ~IsDotEnt(view[x])}}
-Blank(facts, paths) == {IF f.p \in paths THEN [f EXCEPT !.d = <<>>] ELSE f : f \in facts}
+   {[p |-> view[i].p, k |-> view[i].k, d |-> IF withData /\ view[i].k = "f" THEN view[i].c ELSE <<>>] : i \in ViewIdx(view)}
+Blank(facts, paths) == IF paths = {} THEN facts ELSE {IF f.p \in paths THEN [f EXCEPT !.d = <<>>] ELSE f : f \in facts}
 NoData(facts) == {[f EXCEPT !.d = <<>>] : f \in facts}
 
 \* times of files as facts <<path, ct, mt, ad>>, directories <<path, ct>>
 ViewTimes(view) ==
-   {IF view[i].k = "f" THEN <<[j \in 1..Len(view[i].p) |-> Key(view[i].p[j])], view[i].ct, view[i].mt, view[i].ad>>
-    ELSE <<[j \in 1..Len(view[i].p) |-> Key(view[i].p[j])], view[i].ct>>
-    : i \in {x \in 1..Len(view) : view[x].k \in {"f", "d"} /\ ~IsDotEnt(view[x])}}
+   {IF view[i].k = "f" THEN <<view[i].p, view[i].ct, view[i].mt, view[i].ad>> ELSE <<view[i].p, view[i].ct>> : i \in ViewIdx(view)}
 ModelTimes(m, skip) ==
    {IF m.nodes[i].kind = "f" THEN <<PathOf(m, i, 64), m.nodes[i].ct, m.nodes[i].mt, m.nodes[i].ad>>
     ELSE <<PathOf(m, i, 64), m.nodes[i].ct>>
     : i \in {x \in Ids(m) : PathOf(m, x, 64) \notin skip}}
-TimesSkip(times, skip) == {t \in times : t[1] \notin skip}
+TimesSkip(times, skip) == IF skip = {} THEN times ELSE {t \in times : t[1] \notin skip}
 
 (* ---------------- per-op steps: result [m |-> model', v |-> violated tags, ooc |-> BOOLEAN] ---------------- *)
 StartNode(s, at) == IF at = "" THEN 0 ELSE IF at \in DOMAIN s.m.dh THEN s.m.dh[at] ELSE -1
@@ -93,7 +90,7 @@ NsResult(s, e, o, dpath) ==
       ELSE {"C01.result"}
 
 \* alias of the entry named nm (units) in the directory with fold path dpath, taken from the post state
-AliasRows(D, dpath, nm) == SelectSeq(D.rows, LAMBDA r : r.p = Append(dpath, Key(nm)) /\ r.name = nm)
+AliasRows(D, dpath, nm) == SelectSeq(D.rows, LAMBDA r : r.p = Append(dpath, nm))
 
 AddAliasKey(m, id, D, oem, dpath, nm) ==
    LET rs == AliasRows(D, dpath, nm) IN
@@ -168,11 +165,13 @@ NsStep(s, e, Dp) ==
         LET o == ListOutcome(m, start, comps) IN
         IF o.ooc THEN [m |-> m, v |-> {}, ooc |-> TRUE]
         ELSE IF o.mand # {} THEN [m |-> m, v |-> Tag("C01.result", e.r.k = "err" /\ e.r.e \in o.mand), ooc |-> FALSE]
+        \* a path of slashes only names nothing: open_dir may answer NotFound (or the directory itself)
+        ELSE IF comps = <<>> /\ a.pu # <<>> /\ e.r.k = "err" /\ e.r.e = "NotFound" THEN [m |-> m, v |-> {}, ooc |-> FALSE]
         ELSE IF e.r.k # "ok" THEN [m |-> m, v |-> {"C01.result"}, ooc |-> FALSE]
         ELSE LET ents == e.r.ents
-                 listed == {<<Key(Last(ents[i].p)), ents[i].k, Last(ents[i].p)>> : i \in {x \in 1..Len(ents) : ~IsDotEnt(ents[x])}}
+                 listed == {<<ents[i].k, Last(ents[i].p)>> : i \in {x \in 1..Len(ents) : ~IsDotEnt(ents[x])}}
                  dots == Len(SelectSeq(ents, IsDotEnt))
-                 want == {<<Key(m.nodes[i].name), m.nodes[i].kind, m.nodes[i].name>> : i \in Kids(m, o.node)}
+                 want == {<<m.nodes[i].kind, m.nodes[i].name>> : i \in Kids(m, o.node)}
              IN [m |-> m, ooc |-> FALSE,
                  v |-> Tag("C01.list", listed = want /\ Len(ents) - dots = Cardinality(want))
                        \cup Tag("C01.list_dots", dots = IF o.node = 0 THEN 0 ELSE 2)]
@@ -260,13 +259,15 @@ StructStep(raw, D, m) ==
 TreeChecks(s, e, m, D, rv, sv, svok) ==
    LET lag == LagPaths(m)
        mf == TLCEval(TreeFacts(m))
+       mt == TLCEval(ModelTimes(m, lag))
        err == e.r.k # "ok"
-       wantB == Blank(mf, lag)
+       wantB == TLCEval(Blank(mf, lag))
        rvT == IF rv.ok THEN rv.tree ELSE <<>>
-   IN  Tag("C04.decode", Blank(AbsFacts(D), lag) = wantB)
+   IN  Tag("C04.decode", Blank(D.facts, lag) = wantB)
+       \cup Tag("C04.decode_stamps", TimesSkip(D.times, lag) = mt)
        \cup (IF rv.ok THEN Tag("C04.remount", ~ViewBad(rvT) /\ Blank(ViewFacts(rvT, TRUE), lag) = wantB)
                            \cup Tag("C04.view_size", \A i \in 1..Len(rvT) : rvT[i].k = "f" => (rvT[i].sz = Len(rvT[i].c) * s.U /\ ~Has(rvT[i], "cerr")))
-                           \cup Tag("C18.stamps", TimesSkip(ViewTimes(rvT), lag) = ModelTimes(m, lag))
+                           \cup Tag("C18.stamps", TimesSkip(ViewTimes(rvT), lag) = mt)
              ELSE {"C04.remount"})
        \cup (IF svok THEN Tag(IF err THEN "C01.atomic_on_error" ELSE "C01.tree_after",
                               ~ViewBad(sv) /\ ViewFacts(sv, FALSE) = NoData(mf))
@@ -275,11 +276,9 @@ TreeChecks(s, e, m, D, rv, sv, svok) ==
 \* C12: what counts as a structural change between two projections
 Structural(rawA, DA, rawB, DB) ==
    \/ rawA.fats # rawB.fats
-   \/ AbsFacts(DA) # AbsFacts(DB)
-   \/ {<<DA.rows[i].p, DA.rows[i].e.s.sz, DA.rows[i].e.s.cl>> : i \in 1..Len(DA.rows)}
-      # {<<DB.rows[i].p, DB.rows[i].e.s.sz, DB.rows[i].e.s.cl>> : i \in 1..Len(DB.rows)}
-   \/ [k \in 1..Len(rawA.dirs) |-> [i \in 1..Len(rawA.dirs[k].sl) |-> rawA.dirs[k].sl[i].t]]
-      # [k \in 1..Len(rawB.dirs) |-> [i \in 1..Len(rawB.dirs[k].sl) |-> rawB.dirs[k].sl[i].t]]
+   \/ DA.facts # DB.facts
+   \/ DA.meta # DB.meta
+   \/ DA.kinds # DB.kinds
 
 DirtyBit(stb) == stb % 2 = 1
 BitsKept(a, b) == \A k \in 0..7 : ((a \div (2 ^ k)) % 2 = 1) => ((b \div (2 ^ k)) % 2 = 1)
@@ -296,7 +295,14 @@ SegOk(s, seg, post, Dpost) ==
 Step(s, e) ==
    IF e.op = "begin" THEN [s |-> Begin(e), v |-> {}, dev |-> {}, note |-> {}]
    ELSE IF s.dead \/ e.op = "end" THEN [s |-> s, v |-> {}, dev |-> {}, note |-> {}]
-   ELSE IF e.r.k = "skip" THEN [s |-> [s EXCEPT !.dead = TRUE], v |-> {}, dev |-> {}, note |-> {"SKIP"}]
+   ELSE IF e.r.k = "skip" THEN
+        \* the harness had no such handle (an earlier create/open failed): consistent iff the model has none either
+        IF (Has(e.a, "h") /\ e.op \notin {"create_file", "create_dir", "open_file", "open_dir"}
+            /\ e.a.h \notin DOMAIN s.m.fh /\ e.a.h \notin DOMAIN s.m.dh)
+           \/ (Has(e.a, "at") /\ e.a.at # "" /\ e.a.at \notin DOMAIN s.m.dh)
+           \/ (Has(e.a, "to") /\ e.a.to # "" /\ e.a.to \notin DOMAIN s.m.dh)
+        THEN [s |-> s, v |-> {}, dev |-> {}, note |-> {}]
+        ELSE [s |-> [s EXCEPT !.dead = TRUE], v |-> {}, dev |-> {}, note |-> {"SKIP"}]
    ELSE IF e.r.k \in {"panic", "hang"} THEN
         [s |-> [s EXCEPT !.dead = TRUE], v |-> {IF e.r.k = "panic" THEN "C00.panic" ELSE "C00.hang"}, dev |-> {}, note |-> {}]
    ELSE
